@@ -44,3 +44,27 @@ def ok_membership(values, kwargs):
     if 'name' in kwargs:
         return kwargs.pop('name')
     return values
+
+
+def bad_recycles_buffer(collection, predicate):
+    part = []
+    for item in collection:
+        if predicate(item):
+            yield part
+            del part[:]
+        else:
+            part.append(item)
+    if part:
+        yield part
+
+
+def ok_rebinds_buffer(collection, predicate):
+    part = []
+    for item in collection:
+        if predicate(item):
+            yield part
+            part = []
+        else:
+            part.append(item)
+    if part:
+        yield part
